@@ -32,10 +32,10 @@ def leaf : DErr → DErr
   | paramGroup _ _ r => leaf r
   | e => e
 
-theorem leaf_mem_chain (e : DErr) : leaf e ∈ chain e := by
+private theorem leaf_mem_chain (e : DErr) : leaf e ∈ chain e := by
   induction e <;> simp_all [leaf, chain]
 
-theorem leaf_is_last (e : DErr) : (chain e).getLast? = some (leaf e) := by
+private theorem leaf_is_last (e : DErr) : (chain e).getLast? = some (leaf e) := by
   induction e with
   | invalid c ih => simp only [chain, leaf]; rw [List.getLast?_cons, ih]; rfl
   | provide c ih => simp only [chain, leaf]; rw [List.getLast?_cons, ih]; rfl
